@@ -231,6 +231,19 @@ class FlowRobust:
                     sets = [g.enc_set(i, b"") for i in ids]
                     toks += [hx(sender), hx(g.enc_msg(sets))]
                 out.append(cmd + " " + " ".join(toks))
+        # records of ONE octet (the most records a datagram can hold): data for X before X is known, then X announced with a single
+        # 1-octet field, then as much data for X as fits - in one message and in two; whatever is done twice shows in the count
+        for p in ("ipfix", "nf9"):
+            g = gens[p]; cmd = "ipfixh" if p == "ipfix" else "nf9h"
+            for n_after in (200, 1300):
+                for first_known in (False, True):
+                    addr = rand_addr(rng); tid = rng.choice([300, 256])
+                    t1 = Tpl(tid, [], [(4, 0, 1)])              # protocolIdentifier, one octet
+                    ts = g.enc_set(g.tpl_set_id(False), g.enc_tpl(t1, False))
+                    body = lambda k: bytes(rng.randrange(256) for _ in range(k))
+                    toks = [hx(addr), hx(g.enc_msg([ts]))] if first_known else []
+                    toks += [hx(addr), hx(g.enc_msg([g.enc_set(tid, body(8)), ts, g.enc_set(tid, body(n_after)), g.enc_set(tid, body(8))]))]
+                    out.append(cmd + " " + " ".join(toks))
         # sFlow: EVERY combination of a skipped sample's declared length that is negative as a 32-bit signed number, the kind of
         # sample that is skipped (filtered, unsupported, foreign enterprise) and a sample count that would allow endless repetition
         import struct as _sk
